@@ -5,7 +5,7 @@ set -u
 id="$1"; m="$2"; crate="$3"; cdir="$4"; shift 4
 cd /tmp/confirm-wt || exit 2
 git checkout -q -f --detach "$(git -C /repo rev-parse HEAD)"; git clean -fdq
-mkdir -p "$cdir/tests"; cp /tmp/mut-$id-out/$m/demo/*.rs "$cdir/tests/" 2>/dev/null
+mkdir -p "$cdir/tests"; cp /tmp/mut-$id-out/$m/demo/*.rs "$cdir/tests/" 2>/dev/null; for d in /tmp/mut-$id-out/$m/demo/*/; do [ -d "$d" ] && cp -r "$d" "$cdir/tests/"; done
 tests=$(cd /tmp/mut-$id-out/$m/demo && ls *.rs | sed 's/\.rs$//')
 run() { for t in $tests; do CARGO_NET_OFFLINE=true cargo test --offline --target-dir /repo/target -p "$crate" "$@" --test "$t" 2>&1 | grep -E "^test result|^error(\[|:)" | head -3; done; }
 echo "-- demo WITHOUT patch"; run "$@"
